@@ -315,7 +315,10 @@ class JsonSchemaGenerator:
             if parser.output_options:
                 options = parser.output_options
 
-        for name, field in parser.fields.items():
+        for key, field in parser.fields.items():
+            # the table key is lower-cased for case-insensitive fields: the document carries the declared name,
+            # which is the key of the parsed output (and one accepted spelling of the input)
+            name = field.name
             value = self.generate_for_field(field, options=options)
             if value is None:
                 continue
